@@ -121,7 +121,7 @@ def build(sc):
     onames = [model.fresh('R') for _ in sc['outers']]
     src = render(sc, iname, onames)
     built = E.build_module(sc['cm'], src)       # the module's spelling (future import or not) is the nested class model's
-    return built, built.get(iname), [built.get(n) for n in onames], src
+    return built, built.get(iname), [built.get(n) for n in onames], E.shown_src(sc['cm'], src)
 
 
 def _load(Cls, api, doc):
